@@ -210,7 +210,23 @@ def make_matrix(rng, chains, m0, entries, symmetric=False, force_first_cobs=None
                 elif r_ < 0.45:
                     out[i, j] = (int(round(z)) if abs(round(z) - z) < 0.3 and rng.random() < 0.5 else z)
                 else:
-                    out[i, j] = chains.obs(z)
+                    r3 = rng.random()
+                    earlier = [out[a_, b_] for a_ in range(n) for b_ in range(m) if (a_, b_) < (i, j) and is_obs(out[a_, b_])]
+                    if r3 < 0.05 and i != j:
+                        fresh = chains.obs(0.0)
+                        out[i, j] = fresh - fresh.value                  # central value exactly 0.0, fluctuations not
+                    elif r3 < 0.10 and i != j and earlier:
+                        out[i, j] = earlier[int(rng.integers(0, len(earlier)))]          # the very same object in a second entry
+                    elif r3 < 0.14 and i != j and earlier:
+                        src = earlier[int(rng.integers(0, len(earlier)))]
+                        out[i, j] = 1.0 * src                            # equal data in another object with another tag
+                        out[i, j].tag = 'copy'
+                    elif r3 < 0.18 and i != j and earlier:
+                        src = earlier[int(rng.integers(0, len(earlier)))]
+                        fresh = chains.obs(z)
+                        out[i, j] = fresh - fresh.value + float(src.value)    # equal mean on different data
+                    else:
+                        out[i, j] = chains.obs(z)
             else:
                 z = complex(z)
                 r = rng.random() if entries == 'cmixed' else 0.0
@@ -963,6 +979,40 @@ def case_svd(ctx, rng, n, m, entries, layout, ms=False):
     run_with_diagnosis(ctx, [a], judge)
 
 
+def case_refusals(ctx, rng, which):
+    """documented rejections behind the property: Cholesky of CObs must be refused with its message; det of a nested list is either
+    refused (TypeError) or right; a jackknife product of entries that live on two replica must be refused by the jackknife export."""
+    pe = PE
+    chains = Chains(rng, ctx.tier, 'regular')
+    n = int(rng.integers(1, 4))
+    ctx.cell('refusal', which, n)
+    ctx.count('judged:refusal:' + which)
+    ctx.ev()
+    if which == 'cholesky_cobs':
+        m0 = central_matrix(rng, 'spd', n).astype(complex)
+        a = make_matrix(rng, chains, m0, str(rng.choice(['CObs', 'cmixed'])), symmetric=True)
+        try:
+            got = pe.linalg.cholesky(a)
+        except Exception as e:
+            ctx.require('not implemented for CObs' in str(e), 'cholesky:CObs-not-refused-with-the-documented-message', {'error': repr(e)[:200]})
+            ctx.nontrivial.add(digest('refusal', which, central(describe(a))))
+            return
+        ctx.violation('cholesky:CObs-matrix-accepted', {'result_type': type(np.asarray(got, dtype=object).ravel()[0]).__name__})
+    elif which == 'det_list':
+        m0 = central_matrix(rng, 'general', n)
+        a = make_matrix(rng, chains, m0, 'Obs')
+        try:
+            got = pe.linalg.det([list(r_) for r_ in a])
+        except TypeError:
+            ctx.count('det_of_nested_list_refused')
+            ctx.nontrivial.add(digest('refusal', which, central(describe(a))))
+            return
+        tape = matid.Tape()
+        dd = matid.det_cofactor(matid.matrix_duals(tape, describe(a)))
+        ref, scale, _, vscale = matid.propagate_part(tape, dd, 're')
+        compare_obs(ctx, got, ref, 'det:nested-list-differs-from-cofactor-expansion', scale=scale, rtol=1e-10, vtol=1e-11, what='det(list)', value_scale=max(vscale, abs(dd.v), 1e-300))
+
+
 # ------------------------------------------------------------------------------------------
 # I3 jackknife product and einsum
 def jack_operands(rng, chains, shapes, entries, first_like_entries=True):
@@ -1269,7 +1319,10 @@ def plan(tier):
             for lay in ('jack', 'jack_irregular'):
                 p.append(('jack:%d:%s:%s' % (nfac, ent, lay), 5 * m))
         p.append(('jack:%d:Obs:two_ens' % nfac, 1 * m))
+        p.append(('jack:%d:%s:regular' % (nfac, 'Obs' if nfac != 4 else 'CObs'), 6 * m))
         p.append(('jack:%d:%s:jack_two_chains' % (nfac, 'Obs' if nfac != 3 else 'CObs'), 2 * m))
+    for which in ('cholesky_cobs', 'det_list'):
+        p.append(('refuse:%s' % which, 26 * m))
     for form in EINSUM_FORMS:
         for ent in ('Obs', 'CObs'):
             for lay in ('jack', 'jack_irregular'):
@@ -1284,7 +1337,9 @@ def plan(tier):
 def run_case(ctx, kind, idx, rng):
     k = kind.split(':')
     SECOND_CALL[0] = bool(rng.random() < 0.9)
-    if k[0] == 'ms':
+    if k[0] == 'refuse':
+        case_refusals(ctx, rng, k[1])
+    elif k[0] == 'ms':
         op, n_, lay = k[1], int(k[2]), k[3]
         ent = str(rng.choice(['Obs', 'Obs', 'mixed']))
         if op == 'eig':
